@@ -981,6 +981,11 @@ theorem fok_freeConn {s : St} (h : FOk [] s) {c : Id} (hc : s.hasConn c = true) 
   obtain ⟨hq, hnf⟩ := h
   exact ⟨qok_sub hq (core_freeConn hq.core (hasConn_iff.1 hc)) (nd_freeConn hq.nd c) List.filter_sublist, hnf⟩
 
+theorem fok_setCheckpoints {s : St} (h : FOk [] s) (c : Id) (vs : List Id) :
+    FOk [] (s.setCheckpoints c vs) := by
+  obtain ⟨hq, hnf⟩ := h
+  exact ⟨qok_sub hq (core_setCheckpoints hq.core c vs) (nd_setCheckpoints hq.nd c vs) (List.Sublist.refl _), hnf⟩
+
 theorem fok_deletePin {s : St} (h : FOk [] s) {pin : Id} (hp : s.hasPin pin = true) :
     FOk [] ((((s.unlinkPin pin).enqueue .pinChange pin).maybeProcess).releasePin pin) := by
   obtain ⟨hq, hnf⟩ := h
@@ -1115,6 +1120,12 @@ theorem fok_step {s : St} (h : FOk [] s) (op : Op) (hl : Legal s op = true) : FO
     dsimp only
     rw [if_neg (by simp [hl.2.1])]
     exact fok_modify h isDst hl.2.1 hl.2.2
+  | setRoutingCheckpoints c vs =>
+    simp only [Legal, LegalDoc, Bool.and_eq_true, Bool.and_true] at hl
+    unfold step; rw [if_neg (by simp [hal])]
+    dsimp only
+    rw [if_neg (by simp [hl.2.1.1])]
+    exact fok_setCheckpoints h c vs
   | processTransaction =>
     unfold step; rw [if_neg (by simp [hal])]
     exact fok_processTransaction h
